@@ -400,7 +400,7 @@ void LogsumHmmLikelihood::computeDForward_() const
 
   for (size_t j = 0; j < nbStates_; j++)
   {
-    dLogLikelihood_[0][j] = (*dEmissions)[j] / (*emissions)[j];
+    dLogLikelihood_[0][j] = !std::isinf(logLikelihood_[j]) ? (*dEmissions)[j] / (*emissions)[j] : 0.;
   }
 
   // Recursion:
@@ -422,15 +422,35 @@ void LogsumHmmLikelihood::computeDForward_() const
       num[kp] = logLikelihood_[iip + kp];
     }
 
-    num -= num[VectorTools::whichMax(num)];
+    num -= VectorTools::max(num);
 
     if (i < nextBrkPt)
     {
       for (size_t j = 0; j < nbStates_; j++)
       {
-        num2 = dLogLikelihood_[i - 1] * trans.getCol(j);
-
-        dLogLikelihood_[i][j] = (*dEmissions)[j] / (*emissions)[j] + VectorTools::sumExp(num, num2) / VectorTools::sumExp(num, trans.getCol(j));
+        // Weights of the previous states for a move to state j, on the log scale and
+        // relative to the largest one, so that they cannot all underflow:
+        for (size_t k = 0; k < nbStates_; k++)
+        {
+          num2[k] = logLikelihood_[iip + k] + log(trans(k, j));
+        }
+        double mx = VectorTools::max(num2);
+        if (!std::isinf(logLikelihood_[i * nbStates_ + j]))
+        {
+          double den = 0, s1 = 0;
+          for (size_t k = 0; k < nbStates_; k++)
+          {
+            double w = exp(num2[k] - mx); // 0 for an impossible move
+            den += w;
+            s1 += w * dLogLikelihood_[i - 1][k];
+          }
+          dLogLikelihood_[i][j] = (*dEmissions)[j] / (*emissions)[j] + s1 / den;
+        }
+        else
+        {
+          // This state cannot be occupied (null emission, or unreachable): it must have a null weight in all subsequent sums.
+          dLogLikelihood_[i][j] = 0.;
+        }
       }
     }
     else // Reset markov chain:
@@ -441,7 +461,7 @@ void LogsumHmmLikelihood::computeDForward_() const
 
       for (size_t j = 0; j < nbStates_; j++)
       {
-        dLogLikelihood_[i][j] = (*dEmissions)[j] / (*emissions)[j];
+        dLogLikelihood_[i][j] = !std::isinf(logLikelihood_[i * nbStates_ + j]) ? (*dEmissions)[j] / (*emissions)[j] : 0.;
       }
 
       bpIt++;
@@ -458,7 +478,7 @@ void LogsumHmmLikelihood::computeDForward_() const
     num[kp] = logLikelihood_[nbStates_ * (nbSites_ - 1) + kp];
   }
 
-  num -= num[VectorTools::whichMax(num)];
+  num -= VectorTools::max(num);
 
   partialDLogLikelihoods_.push_back(VectorTools::sumExp(num, dLogLikelihood_[nbSites_ - 1]) / VectorTools::sumExp(num));
 
@@ -509,7 +529,7 @@ void LogsumHmmLikelihood::computeD2Forward_() const
 
   for (size_t j = 0; j < nbStates_; j++)
   {
-    d2LogLikelihood_[0][j] = (*d2Emissions)[j] / (*emissions)[j] - pow((*dEmissions)[j] / (*emissions)[j], 2);
+    d2LogLikelihood_[0][j] = !std::isinf(logLikelihood_[j]) ? (*d2Emissions)[j] / (*emissions)[j] - pow((*dEmissions)[j] / (*emissions)[j], 2) : 0.;
   }
 
   // Recursion:
@@ -517,7 +537,7 @@ void LogsumHmmLikelihood::computeD2Forward_() const
   vector<size_t>::const_iterator bpIt = breakPoints_.begin();
   if (bpIt != breakPoints_.end())
     nextBrkPt = *bpIt;
-  partialDLogLikelihoods_.clear();
+  partialD2LogLikelihoods_.clear();
 
   for (size_t i = 1; i < nbSites_; i++)
   {
@@ -532,19 +552,37 @@ void LogsumHmmLikelihood::computeD2Forward_() const
       num[kp] = logLikelihood_[iip + kp];
     }
 
-    num -= num[VectorTools::whichMax(num)];
+    num -= VectorTools::max(num);
 
     if (i < nextBrkPt)
     {
       for (size_t j = 0; j < nbStates_; j++)
       {
-        double den = VectorTools::sumExp(num, trans.getCol(j));
-
-        num2 = dLogLikelihood_[i - 1] * trans.getCol(j);
-
-        num3 = (dLogLikelihood_[i - 1] * dLogLikelihood_[i - 1] + d2LogLikelihood_[i - 1]) * trans.getCol(j);
-
-        d2LogLikelihood_[i][j] =  VectorTools::sumExp(num, num3) / den - pow(VectorTools::sumExp(num, num2) / den, 2);
+        // Weights of the previous states for a move to state j, on the log scale and
+        // relative to the largest one, so that they cannot all underflow:
+        for (size_t k = 0; k < nbStates_; k++)
+        {
+          num2[k] = logLikelihood_[iip + k] + log(trans(k, j));
+        }
+        double mx = VectorTools::max(num2);
+        if (!std::isinf(logLikelihood_[i * nbStates_ + j]))
+        {
+          double den = 0, s1 = 0, s2 = 0;
+          for (size_t k = 0; k < nbStates_; k++)
+          {
+            double w = exp(num2[k] - mx); // 0 for an impossible move
+            den += w;
+            s1 += w * dLogLikelihood_[i - 1][k];
+            s2 += w * (dLogLikelihood_[i - 1][k] * dLogLikelihood_[i - 1][k] + d2LogLikelihood_[i - 1][k]);
+          }
+          d2LogLikelihood_[i][j] = (*d2Emissions)[j] / (*emissions)[j] - pow((*dEmissions)[j] / (*emissions)[j], 2)
+              + s2 / den - pow(s1 / den, 2);
+        }
+        else
+        {
+          // This state cannot be occupied (null emission, or unreachable): it must have a null weight in all subsequent sums.
+          d2LogLikelihood_[i][j] = 0.;
+        }
       }
     }
     else // Reset markov chain:
@@ -559,7 +597,7 @@ void LogsumHmmLikelihood::computeD2Forward_() const
 
       for (size_t j = 0; j < nbStates_; j++)
       {
-        d2LogLikelihood_[i][j] = (*d2Emissions)[j] / (*emissions)[j] - pow((*dEmissions)[j] / (*emissions)[j], 2);
+        d2LogLikelihood_[i][j] = !std::isinf(logLikelihood_[i * nbStates_ + j]) ? (*d2Emissions)[j] / (*emissions)[j] - pow((*dEmissions)[j] / (*emissions)[j], 2) : 0.;
       }
 
 
@@ -577,7 +615,7 @@ void LogsumHmmLikelihood::computeD2Forward_() const
     num[kp] = logLikelihood_[nbStates_ * (nbSites_ - 1) + kp];
   }
 
-  num -= num[VectorTools::whichMax(num)];
+  num -= VectorTools::max(num);
 
   double den = VectorTools::sumExp(num);
 
